@@ -206,3 +206,65 @@ pub fn replay(args: &[String]) {
         "skipped_divergent": skipped, "nontrivial_grammars": nontriv, "mismatch_count": nmism,
         "by_cause": by_cause, "mismatches": mism, "sample": sample}));
 }
+
+/// `vh grammar-list [--cases FILE --max N | --seed S --grammars N --profile P] --gi0 K --out FILE`
+/// Writes the list format of the generated-parser runner: {gi, text, cases:[{start, inp[, exp]}]},
+/// only grammars the real front-end accepts.
+pub fn grammar_list(args: &[String]) {
+    silence_panics();
+    let out = arg(args, "--out").expect("--out");
+    let mut gi = arg_u64(args, "--gi0", 0);
+    let mut w = writer(&out);
+    let (mut seen, mut rejected) = (0u64, 0u64);
+    pest::set_call_limit(None);
+    if let Some(cases) = arg(args, "--cases") {
+        let max = arg_u64(args, "--max", 50);
+        let lines: Vec<String> = read_lines(&cases).collect();
+        let stride = (lines.len() as u64 / max.max(1)).max(1);
+        let seed = arg_u64(args, "--seed", 1);
+        let mut taken = 0;
+        for (i, line) in lines.iter().enumerate() {
+            if taken >= max || (i as u64 + seed) % stride != 0 {
+                continue;
+            }
+            seen += 1;
+            let rec: Value = serde_json::from_str(line).unwrap();
+            let text = grammar_text(&rec["g"], None);
+            if !matches!(guarded(|| front_end(&text)), Ok(Ok(_))) {
+                rejected += 1;
+                continue;
+            }
+            wl(&mut w, &json!({"gi": gi, "text": text, "cases": rec["cases"]}));
+            gi += 1;
+            taken += 1;
+        }
+    } else {
+        let seed = arg_u64(args, "--seed", 1);
+        let want = arg_u64(args, "--grammars", 50);
+        let prof = arg_or(args, "--profile", "mix");
+        let ninp = arg_u64(args, "--inputs", 25) as usize;
+        let mut rng = StdRng::seed_from_u64(seed);
+        let mut taken = 0;
+        while taken < want && seen < want * 40 {
+            seen += 1;
+            let cfg = profile(&prof, &mut rng);
+            let (g, order) = gen::grammar(&mut rng, &cfg);
+            let text = grammar_text(&g, Some(&order));
+            if !matches!(guarded(|| front_end(&text)), Ok(Ok(_))) {
+                rejected += 1;
+                continue;
+            }
+            let mut cs = vec![];
+            for start in &order {
+                for _ in 0..ninp {
+                    cs.push(json!({"start": start, "inp": cps(&gen::input(&mut rng, 8, &gen::ALPHA))}));
+                }
+            }
+            wl(&mut w, &json!({"gi": gi, "text": text, "cases": cs, "semantics": true}));
+            gi += 1;
+            taken += 1;
+        }
+    }
+    w.flush().unwrap();
+    println!("{}", json!({"written": gi - arg_u64(args, "--gi0", 0), "next_gi": gi, "considered": seen, "rejected_by_validator": rejected}));
+}
